@@ -119,7 +119,7 @@ func (writer *SSTableStreamWriter) WriteNext(key []byte, value []byte) error {
 		return fmt.Errorf("error writeNext data writer error in '%s': %w", writer.opts.basePath, err)
 	}
 
-	_, err = writer.indexWriter.Write(&sProto.IndexEntry{Key: key, ValueOffset: recordOffset, Checksum: crc.Sum64()})
+	_, err = writer.indexWriter.Write(&sProto.IndexEntry{Key: key, ValueOffset: recordOffset, Checksum: nonZeroChecksum(crc.Sum64(), value)})
 	if err != nil {
 		// in case of failures we need to try to rewind the data writer's offset to preWriteOffset
 		seekErr := writer.dataWriter.Seek(preWriteOffset)
